@@ -1,0 +1,26 @@
+//go:build !verif
+
+package kioshun
+
+// Verification hooks are compiled out unless the "verif" build tag is set.
+// Every stub below is empty and inlinable, so the default build is unchanged.
+
+const verifEnabled = false
+
+const (
+	verifEvGhost = iota + 1
+	verifEvKeep
+	verifEvAdmit
+	verifEvAdapt
+	verifEvLFUVictim
+)
+
+func verifB(b bool) int64 { return 0 }
+
+func verifClock() (int64, bool) { return 0, false }
+
+func verifEv(kind int, shard uint8, a, b int64, key any) {}
+
+func verifStagedInc() {}
+
+func verifYield(point int) {}
